@@ -493,6 +493,40 @@ def _kernels_of(calls, done):
     return ks
 
 
+_KNOWN = {}
+
+
+def _pick(mismatches, keyfn):
+    """one result per case: prefer a mismatch whose mechanism key is NOT an open known finding, so that a new
+    mechanism can never hide behind a known one inside the same case"""
+    if "keys" not in _KNOWN:
+        try:
+            from vlib import runner
+            _KNOWN["keys"] = set(runner.load_known(ID))
+        except Exception:  # noqa: BLE001
+            _KNOWN["keys"] = set()
+    for i, verdict, detail in mismatches:
+        if keyfn(i, verdict) not in _KNOWN["keys"]:
+            return i, verdict, detail
+    return mismatches[0]
+
+
+def _others(case, calls, mismatches, keyfn, first_key, who, cap=6):
+    """further distinct mechanism keys seen in the same case (turned into results of their own by finalize)"""
+    out, seen = [], {first_key}
+    for i, verdict, detail in mismatches:
+        k = keyfn(i, verdict)
+        if k in seen:
+            continue
+        seen.add(k)
+        c = calls[i]
+        out.append({"key": k, "what": "%s disagree on %s.%s (%s) for [%s]: %s" % (who, c["mod"], c["fn"], verdict, c["cls"], json.dumps(detail, default=str)[:300]),
+                    "witness": _witness(case, calls, i, verdict, detail)})
+        if len(out) >= cap:
+            break
+    return out
+
+
 def _mech(call):
     """coarse mechanism tag of a call (derivative flags, boundary mode, spline family) for violation keys"""
     return ("/" + call["mech"]) if call.get("mech") else ""
@@ -599,8 +633,10 @@ def _diff_case(case):
                       % (res["rc"], res["timed_out"], _strip_marks(res["stderr"])[-300:]))
     real = [x for x in bad if x[1] != "both-raise"]
     if real:
-        i, verdict, detail = real[0]
+        i, verdict, detail = _pick(real, lambda j, v: "C19:diff:%s:%s.%s:%s%s" % (lang, calls[j]["mod"], calls[j]["fn"], v, _mech(calls[j])))
         c = calls[i]
+        kf = lambda j, v: "C19:diff:%s:%s.%s:%s%s" % (lang, calls[j]["mod"], calls[j]["fn"], v, _mech(calls[j]))  # noqa: E731
+        extra["other_violations"] = _others(case, calls, real, kf, kf(i, verdict), "compiled (%s) and interpreted" % lang)
         return result(VIOL, cls=cls, events=events, n_eval=ncmp, extra=extra,
                       key="C19:diff:%s:%s.%s:%s%s" % (lang, c["mod"], c["fn"], verdict, _mech(c)),
                       what="compiled (%s) and interpreted %s.%s disagree (%s) for [%s]: %s; %d of %d calls of this case disagree"
@@ -854,8 +890,10 @@ def _copy_case(case):
     extra["copy_functions"] = sorted("%s:%s" % (short, k.split(".", 1)[1]) for k in funcs)
     real = [x for x in bad if x[1] != "both-raise"]
     if real:
-        i, verdict, detail = real[0]
+        i, verdict, detail = _pick(real, lambda j, v: "C19:copy-mismatch:%s:%s%s" % (short, calls[j]["fn"], _mech(calls[j])))
         c = calls[i]
+        kf = lambda j, v: "C19:copy-mismatch:%s:%s%s" % (short, calls[j]["fn"], _mech(calls[j]))  # noqa: E731
+        extra["other_violations"] = _others(case, calls, real, kf, kf(i, verdict), "%s (plain Python) and the pyccel source" % rel)
         return result(VIOL, cls=cls, events=events, n_eval=ncmp, extra=extra, key="C19:copy-mismatch:%s:%s%s" % (short, c["fn"], _mech(c)),
                       what="%s run as plain Python and the pyccel source disagree on %s (%s) for [%s]: %s"
                       % (rel, c["fn"], verdict, c["cls"], json.dumps(detail, default=str)[:400]),
@@ -904,6 +942,11 @@ def finalize(tier, seed, cases, results):
     """every public function of the five modules must have been compared (per language) -- a kernel added
     to the sources without an argument generator makes the run inconclusive, not silently green"""
     out = []
+    for c, r in zip(cases, results):
+        for o in ((r or {}).get("extra") or {}).get("other_violations", []) or []:
+            x = result(VIOL, key=o["key"], what=o["what"], witness=o.get("witness"), n_eval=0)
+            x["case"] = c
+            out.append(x)
     allk = {"%s.%s" % (m, f) for m, fs in _enumerate_kernels().items() for f in fs}
     by_lang = {}
     for c, r in zip(cases, results):
